@@ -133,7 +133,7 @@ func checkC15(c *Ctx) {
 		src  string
 		line bool
 		term string // what ends a line comment: LF, a lone CR or CRLF
-	}{{"// c", true, "\n"}, {"//c", true, "\n"}, {"// c", true, "\r"}, {"//c", true, "\r\n"}, {"/* c */", false, ""}, {"/*c*/", false, ""}, {"/* c\nc */", false, ""}, {"/**/", false, ""}}
+	}{{"// c", true, "\n"}, {"//c", true, "\n"}, {"// c", true, "\r"}, {"//c", true, "\r\n"}, {"/* c */", false, ""}, {"/*c*/", false, ""}, {"/* c\nc */", false, ""}, {"/**/", false, ""}, {"/* c **/", false, ""}, {"/***/", false, ""}, {"/** c */", false, ""}, {"/** @param x */", false, ""}, {"/* * **** / */", false, ""}}
 	for _, t1 := range pieces {
 		for _, t2 := range pieces {
 			for _, cm := range comments {
@@ -163,6 +163,13 @@ func checkC15(c *Ctx) {
 					}})
 				}
 			}
+		}
+	}
+	// characters whose code point ends in the byte of '<', '>' or NUL (U+013C, U+013E, U+0100, U+4E3E, U+1F600,
+	// U+4E3C) are ordinary characters: a line break next to them joins with one space.
+	for _, r := range []string{"\u013c", "\u013e", "\u0100", "\u4e3e", "\U0001F600", "\u4e3c", "\u203c"} {
+		for _, t := range []string{r + "\n" + r, "a\n" + r, r + "\na", r + " \n " + r, r + "\r\n" + r, "<\n" + r, r + "\n>"} {
+			add(c15item{body: "{$x}" + t + "{$x}", want: "X" + refJoinLines(t) + "X", ctx: "wide-rune", sigcls: "join-wide-rune:" + textShape(strings.ReplaceAll(t, r, "é"))})
 		}
 	}
 	// text that must not be mistaken for a comment
